@@ -199,6 +199,74 @@ def random_design(rng, small):
     return d
 
 
+MEMHASH_AW = [9, 12, 16, 33]
+MEMHASH_OFFSETS = {9: [0, 256], 12: [0, 256, 512, 2048], 16: [0, 256, 512, 25600],
+                   33: [0, 256, 512, 1 << 32, (1 << 32) + 256]}
+
+
+def memhash_design(rng, aw, dw):
+    """one wide-data memory with a large address space: CompiledSimulation keeps it in a chained hash map
+    with 256 buckets (key % 256), so addresses k, k+256, k+512, k+2^32 share a bucket"""
+    pyrtl.reset_working_block()
+    block = pyrtl.working_block()
+    d = gen_designs.Design(block)
+    waddr, wdata, we = pyrtl.Input(aw, 'waddr'), pyrtl.Input(dw, 'wdata'), pyrtl.Input(1, 'we')
+    ra, rb = pyrtl.Input(aw, 'raddr'), pyrtl.Input(aw, 'raddr2')
+    d.inputs = [waddr, wdata, we, ra, rb]
+    m = pyrtl.MemBlock(bitwidth=dw, addrwidth=aw, name='hm', max_read_ports=None, max_write_ports=None,
+                       asynchronous=True)
+    d.mems = [m]
+    ra_v, rb_v = pyrtl.as_wires(m[ra]), pyrtl.as_wires(m[rb])
+    probe(block, 'o_ra', ra_v)
+    probe(block, 'o_rb', rb_v)
+    acc = pyrtl.Register(dw, 'acc')
+    acc.next <<= acc ^ ra_v
+    d.regs = [acc]
+    probe(block, 'o_acc', acc + rb_v)
+    m[waddr] <<= pyrtl.MemBlock.EnabledWrite(wdata, we)
+    d.ops = ['memhash:aw%d' % aw]
+    d.aw, d.dw = aw, dw
+    return d
+
+
+def memhash_stimulus(rng, block, aw, dw):
+    """initial map with two colliding addresses; further colliding keys inserted at run time in a random
+    order, one per cycle; a disabled write to yet another colliding key; read-back of every address in
+    both orders on the two read ports; overwrites of keys in the middle / at the end of a chain; read-back"""
+    mem = [m for m in block_mems(block) if not isinstance(m, pyrtl.RomBlock)][0]
+    top = 1 << aw
+    k = rng.randrange(256)
+    k2 = (k + 1 + rng.randrange(254)) % 256
+    chain = [k + o for o in MEMHASH_OFFSETS[aw] if k + o < top]
+    chain2 = [a for a in (k2, k2 + 256) if a < top]
+    val = lambda: gen_designs.boundary_value(rng, dw) or 1          # noqa: E731  (non-zero: a lost word reads 0)
+    memmap = {mem: {chain[0]: val(), chain[1]: val(), chain2[0]: val()}}
+    ghost = [a for a in (k + 768, k + 1024) if a < top and a not in chain]
+    every = chain + chain2
+    inputs = []
+
+    def step(wa, wd, en, r1, r2):
+        inputs.append({'waddr': wa, 'wdata': wd, 'we': en, 'raddr': r1, 'raddr2': r2})
+    order = chain[2:] + chain2[1:] + [chain[0]]
+    rng.shuffle(order)
+    prev = chain[0]
+    for a in order:                                   # run-time inserts into occupied buckets
+        step(a, val(), 1, prev, rng.choice(every))
+        prev = a
+    if ghost:
+        step(ghost[0], val(), 0, prev, chain[0])      # disabled write: must not insert
+    for i, a in enumerate(every):                     # read back, both orders
+        step(rng.choice(every), val(), 0, a, every[len(every) - 1 - i])
+    for a in (chain[1], chain[-1], chain2[0]):        # overwrite keys inside / at the end of a chain
+        step(a, val(), 1, a, chain[0])
+    perm = list(every)
+    rng.shuffle(perm)
+    for i, a in enumerate(perm):
+        step(0, 0, 0, a, every[i])
+    touched = sorted(set(every + ghost + [0, top - 1]))
+    return {}, memmap, inputs, touched
+
+
 def synth_cost(block):
     c = 0
     for n in block.logic:
@@ -259,13 +327,23 @@ def sim_memmap(block, memmap):
     return {m: dict(c) for m, c in memmap.items()}
 
 
-def final_mems(block, getter, dflt):
+def mem_addr_list(case, m):
+    """addresses of memory m that are compared: all of them, or (hash-collision family, whose
+    address space is too large to enumerate) every touched address plus untouched neighbours"""
+    addrs = case.get('mem_addrs')
+    if addrs is not None:
+        return addrs
+    return list(range(1 << m.addrwidth))
+
+
+def final_mems(case, getter, dflt):
     res = {}
-    for m in block_mems(block):
+    for m in block_mems(case['block']):
         if isinstance(m, pyrtl.RomBlock):
             continue
         view = getter(m)
-        res[m.id] = [view.get(a, dflt) if isinstance(view, dict) else view[a] for a in range(1 << m.addrwidth)]
+        res[m.id] = {a: (view.get(a, dflt) if isinstance(view, dict) else view[a])
+                     for a in mem_addr_list(case, m)}
     return res
 
 
@@ -290,7 +368,7 @@ def run_python_sims(case):
             for step in inputs:
                 s.step(dict(step))
             res[kind] = ({k: list(v) for k, v in tracer.trace.items()},
-                         final_mems(block, s.inspect_mem, dflt))
+                         final_mems(case, s.inspect_mem, dflt))
         except Exception as e:  # noqa
             res[kind] = 'EXC %s: %s' % (type(e).__name__, str(e)[:200])
     return res
@@ -309,7 +387,7 @@ def run_compiled(case):
         else:
             for step in inputs:                          # step by step
                 s.step(dict(step))
-        out = ({k: list(v) for k, v in tracer.trace.items()}, final_mems(block, s.inspect_mem, 0))
+        out = ({k: list(v) for k, v in tracer.trace.items()}, final_mems(case, s.inspect_mem, 0))
         del s
         return out
     except Exception as e:  # noqa
@@ -579,6 +657,10 @@ def run(ctx):
     for i in range(n_sweep):
         rng = ctx.sub_rng('sweep', i)
         designs.append(('sweep', i, sweep_design(rng, SWEEP_WIDTHS[i % 6], i // 6)))   # i//6 % 3 == 2: with truncating x/c/s
+    n_memhash = 8 if quick else 48
+    for i in range(n_memhash):                    # hash-map collisions in the C memories
+        rng = ctx.sub_rng('memhash', i)
+        designs.append(('memhash', i, memhash_design(rng, MEMHASH_AW[i % 4], rng.choice([65, 70, 128, 129]))))
     for i in range(n_random):
         rng = ctx.sub_rng('random', i)
         designs.append(('random', i, random_design(rng, i % 2 == 1)))
@@ -593,10 +675,16 @@ def run(ctx):
                 continue
             rng = ctx.sub_rng('stim', family, i, variant)
             ncyc = rng.randint(3, 6 if quick else 12)
-            regmap, memmap, inputs = make_stimulus(rng, block, ncyc)
+            mem_addrs = None
+            if family == 'memhash':
+                if variant == 'synth-unmerged':
+                    continue                      # its inputs are per-bit; the other three variants cover it
+                regmap, memmap, inputs, mem_addrs = memhash_stimulus(rng, block, d.aw, d.dw)
+            else:
+                regmap, memmap, inputs = make_stimulus(rng, block, ncyc)
             has_mem = any(not isinstance(m, pyrtl.RomBlock) for m in block_mems(block))
-            dflt = 0 if rng.random() < 0.85 else 1
-            case = dict(idx=len(cases), family=family, design=i, variant=variant, block=block,
+            dflt = 0 if (rng.random() < 0.85 or family == 'memhash') else 1
+            case = dict(idx=len(cases), family=family, design=i, variant=variant, block=block, mem_addrs=mem_addrs,
                         regmap=regmap, memmap=memmap, inputs=inputs, dflt=dflt, has_mem=has_mem,
                         ops=list(d.ops))
             case['py'] = run_python_sims(case)
@@ -623,7 +711,7 @@ def run(ctx):
         ctx.count('coq_evaluated', 'yes')
         dump = HexDump(case['block'], net_order=case['ordered_nets'])
         probes = [(m.id, a) for m in block_mems(case['block']) if not isinstance(m, pyrtl.RomBlock)
-                  for a in range(1 << m.addrwidth)]
+                  for a in mem_addr_list(case, m)]
         case['dump'] = dump
         case['probes'] = probes
         spec_exprs.append(coq_args(dump, case, probes))
